@@ -1122,15 +1122,18 @@ trait_property_changed(
         return -1;
     }
 
+    /* The notifier list belongs to the trait: keep the trait alive while
+       the property getter and the notifiers (user code, which may remove or
+       replace the trait) run. */
     tnotifiers = trait->notifiers;
     onotifiers = obj->notifiers;
-    Py_DECREF(trait);
 
     if (has_notifiers(tnotifiers, onotifiers)) {
         null_new_value = (new_value == NULL);
         if (null_new_value) {
             new_value = has_traits_getattro(obj, name);
             if (new_value == NULL) {
+                Py_DECREF(trait);
                 return -1;
             }
         }
@@ -1143,6 +1146,7 @@ trait_property_changed(
         }
     }
 
+    Py_DECREF(trait);
     return rc;
 }
 
